@@ -7,6 +7,7 @@
 From Coq Require Import Arith List Bool Sorted Lia.
 From Coq Require Import NArith QArith.
 From Molli Require Import Model.Graph Model.Match Proofs.Graph Proofs.GraphTop Proofs.GraphAdj Proofs.Match Gen.MatchPreds.
+From Molli Require Import Model.GraphSession Proofs.GraphSession.
 Open Scope nat_scope.
 Import ListNotations.
 
@@ -154,6 +155,114 @@ Theorem C15_match_plain : forall H P f,
   (In f (enum H P) <-> plain_embedding H P f).
 Proof. exact enum_plain. Qed.
 Print Assumptions C15_match_plain.
+
+(* ---- 6. "any molecular graph" = the graph the object holds NOW: sessions of queries and in-place edits ---- *)
+(* Model/GraphSession.v: one host object and some pattern objects are edited in place (attribute assignment on an
+   atom / a bond, connect, del_bond, add atom, del_atom) and asked the queries above at any point in between.
+   A session accepted by the checker (the function the correspondence shards evaluate on what molli answered)
+   certifies: EVERY answer recorded ANYWHERE in it is the model's answer on the state produced by the edits made
+   before it -- no answer depends on what was asked earlier.  So clauses 1-5 hold of every answer given at any
+   point of the object's history, with g := the bond list as edited so far. *)
+Theorem C15_session_sound : forall c, check_scase c = true ->
+  forall pre x post, sc_steps c = pre ++ x :: post ->
+  step_holds (world_after (sc_host c, sc_pats c) pre) x.
+Proof. exact session_sound. Qed.
+Print Assumptions C15_session_sound.
+
+Theorem C15_session_bfs_now : forall c, check_scase c = true ->
+  forall pre post qs, sc_steps c = pre ++ SQuery qs :: post ->
+  forall s out, In (QBfsd s None (BOk out)) qs ->
+  let g := ss_graph (fst (world_after (sc_host c, sc_pats c) pre)) in
+  NoDup (map fst out) /\ ~ In s (map fst out) /\ StronglySorted le (map snd out) /\
+  (forall v, In v (map fst out) <-> reach g s v /\ v <> s) /\
+  (forall v d, In (v, d) out -> is_dist g s v d).
+Proof. exact session_bfs_now. Qed.
+Print Assumptions C15_session_bfs_now.
+
+Theorem C15_session_bfs_dir_now : forall c, check_scase c = true ->
+  forall pre post qs, sc_steps c = pre ++ SQuery qs :: post ->
+  forall s d out, d <> s -> In (QBfsd s (Some d) (BOk out)) qs ->
+  let g := ss_graph (fst (world_after (sc_host c, sc_pats c) pre)) in
+  adj g s d /\ NoDup (map fst out) /\ (forall v, In v (map fst out) <-> reach (remove_vertex g s) d v).
+Proof. exact session_bfs_dir_now. Qed.
+Print Assumptions C15_session_bfs_dir_now.
+
+Theorem C15_session_ring_now : forall c, check_scase c = true ->
+  forall pre post qs, sc_steps c = pre ++ SQuery qs :: post ->
+  forall bi x y r, In (QRing bi (Some r)) qs ->
+  let g := ss_graph (fst (world_after (sc_host c, sc_pats c) pre)) in
+  nth_error g bi = Some (x, y) -> x <> y -> (r = true <-> reach (remove_bond g x y) x y).
+Proof. exact session_ring_now. Qed.
+Print Assumptions C15_session_ring_now.
+
+Theorem C15_session_adjacency_now : forall c, check_scase c = true ->
+  forall pre post qs, sc_steps c = pre ++ SQuery qs :: post ->
+  forall a, let g := ss_graph (fst (world_after (sc_host c, sc_pats c) pre)) in
+  (forall obs, In (QConn a obs) qs -> forall b, In b obs <-> adj g a b) /\
+  (forall obs, In (QBonds a obs) qs -> forall i, In i obs <-> exists b, nth_error g i = Some b /\ (fst b = a \/ snd b = a)) /\
+  (forall n, In (QNb a n) qs -> n = length (filter (fun b => bond_has b a) g)).
+Proof. exact session_adjacency_now. Qed.
+Print Assumptions C15_session_adjacency_now.
+
+(* matching: host AND pattern as they are now (reference semantics; PARTIAL w.r.t. VF2 exactly as clause 5) *)
+Theorem C15_session_match_now : forall c, check_scase c = true ->
+  forall pre k obs post, sc_steps c = pre ++ SMatch k obs :: post ->
+  let w := world_after (sc_host c, sc_pats c) pre in
+  NoDup obs /\ forall f, In f obs <-> embedding (ss_mgraph (fst w)) (ss_mgraph (pat_at w k)) f.
+Proof. exact session_match_now. Qed.
+Print Assumptions C15_session_match_now.
+
+(* what the edits do to the graph the clauses speak of: attribute assignments and a new unbonded atom leave the
+   topology (hence every BFS / ring / adjacency answer) alone and keep both counts; connect adds exactly one
+   adjacency; del_bond on a simple graph is `remove_bond` of its end points *)
+Theorem C15_edit_keeps_topology : forall s,
+  (forall i a, ss_graph (apply_edit (ESetAtom i a) s) = ss_graph s) /\
+  (forall i bt st lab f, ss_graph (apply_edit (ESetBond i bt st lab f) s) = ss_graph s) /\
+  (forall a, ss_graph (apply_edit (EAddAtom a) s) = ss_graph s).
+Proof. exact edit_keeps_topology. Qed.
+Print Assumptions C15_edit_keeps_topology.
+
+Theorem C15_edit_keeps_counts : forall s,
+  (forall i a, counts (apply_edit (ESetAtom i a) s) = counts s) /\
+  (forall i bt st lab f, counts (apply_edit (ESetBond i bt st lab f) s) = counts s).
+Proof. exact edit_keeps_counts. Qed.
+Print Assumptions C15_edit_keeps_counts.
+
+Theorem C15_edit_connect_adj : forall s b f x y,
+  adj (ss_graph (apply_edit (EConnect b f) s)) x y <-> adj (ss_graph s) x y \/ joins (mb_a1 b, mb_a2 b) x y = true.
+Proof. exact edit_connect_adj. Qed.
+Print Assumptions C15_edit_connect_adj.
+
+Theorem C15_edit_del_bond : forall s i a b, simple (ss_graph s) -> nth_error (ss_graph s) i = Some (a, b) ->
+  ss_graph (apply_edit (EDelBond i) s) = remove_bond (ss_graph s) a b /\
+  (forall x y, adj (ss_graph (apply_edit (EDelBond i) s)) x y <->
+               adj (ss_graph s) x y /\ ~ (x = a /\ y = b) /\ ~ (x = b /\ y = a)).
+Proof. exact edit_del_bond. Qed.
+Print Assumptions C15_edit_del_bond.
+
+(* (number of atoms, number of bonds) does not identify the graph: halogen exchange in place, moving a substituent
+   (del_bond + connect) and an edited pattern keep both counts and change what matching / BFS must answer *)
+Theorem C15_count_stamp_insufficient :
+  counts (apply_edit ex_halex ex_host) = counts ex_host /\
+  enum (ss_mgraph ex_host) (ss_mgraph ex_ccl) = [[1; 0]] /\
+  enum (ss_mgraph (apply_edit ex_halex ex_host)) (ss_mgraph ex_ccl) = [] /\
+  counts (ex_move ex_host) = counts ex_host /\
+  yield_bfsd (ss_graph ex_host) 5 None = BOk [(4,1); (3,2); (2,3); (1,4); (0,5)] /\
+  yield_bfsd (ss_graph (ex_move ex_host)) 5 None = BOk [(2,1); (1,2); (3,2); (0,3); (4,3)] /\
+  counts (apply_edit (ESetAtom 1 (mk_matom 8 None 0 1)) ex_ccl) = counts ex_ccl /\
+  enum (ss_mgraph ex_host) (ss_mgraph (apply_edit (ESetAtom 1 (mk_matom 8 None 0 1)) ex_ccl)) = [[4; 5]].
+Proof. exact count_stamp_insufficient. Qed.
+Print Assumptions C15_count_stamp_insufficient.
+
+(* non-vacuity: a session with every kind of step is accepted, and the same session with a stale answer is not *)
+Example C15_session_example :
+  check_scase ex_session = true /\
+  check_scase (mk_scase ex_host [ex_ccl] [SMatch 0 [[1; 0]]; SHost ex_halex; SMatch 0 [[1; 0]]]) = false /\
+  simple (ss_graph ex_host) /\ nth_error (ss_graph ex_host) 4 = Some (4, 5).
+Proof.
+  split; [exact ex_session_accepted|]. split; [exact (proj1 ex_session_stale_rejected)|].
+  split; [apply simple_b_sound; vm_compute; reflexivity|reflexivity].
+Qed.
 
 (* ---- non-vacuity: the hypotheses are met by real molecules-as-graphs and every branch is reached ---- *)
 Example C15_examples :
